@@ -5,6 +5,6 @@ for p in "$@"; do c=${p%%/*}; extra=${SEED_CHECKS:-$c}
   /verif/tools/seedtest.py $root/$p --keep ${p/\//-} --checks $extra 2>&1 | grep -v conda | python3 -c "
 import sys,json
 try:
-    r=json.load(sys.stdin); print('$p', 'confirmed=%s suite=%s applies=%s' % (r['confirmed'], r.get('suite_ok'), r.get('applies')), {k:('MISSED' if v['exit']==0 else ('drift' if v['no_failing_input'] else 'caught'), v['detail'][:120]) for k,v in r.get('checks',{}).items()})
+    r=json.load(sys.stdin); print('$p', 'confirmed=%s suite=%s applies=%s' % (r['confirmed'], r.get('suite_ok'), r.get('applies')), {k:('MISSED' if v['exit']==0 else ('MACHINERY-ERROR' if v['exit']==2 or v['violations']==0 else ('drift' if v['no_failing_input'] else 'caught')), v['detail'][:120]) for k,v in r.get('checks',{}).items()})
 except Exception as e: print('$p ERR', e)"
 done
